@@ -5,14 +5,11 @@ use std::path::PathBuf;
 
 fn cases_for(prop: &str, tier: &str) -> u32 {
     // fixed work per tier: 16 workers x this many generated cases (plus the regression cases)
-    let quick: u32 = match prop {
-        "C03" => 10_000,
-        _ => 10_000,
-    };
+    let _ = prop;
     if tier == "thorough" {
-        quick * 25
+        300_000
     } else {
-        quick
+        30_000
     }
 }
 
